@@ -64,7 +64,7 @@ ASSUMPTIONS = [
     "the reference beta of a dzrf design is bsf * filter designer called with calc_ripples' ripples (what dzrf's body does)",
     "tolerance bands for the round trip are accuracy statements of b2a's 16x padded log-spectrum (DESIGN.md C19): 1e-6 "
     "(max|B| <= 0.95), 1e-4 (<= 0.99), 3e-3 (<= 0.9999), 3e-2 above and where b2a renormalises max|B| >= 1",
-    "cancel_alpha_phs=False only",
+    "cancel_alpha_phs=False for ptype 'ex'; for the other ptypes (where the docstring says it has no effect) it is also passed as True",
     "a dzrf call in which scipy.signal.remez reports 'Failure to converge' (seen once in 80 000 designs: "
     "dzrf(230, 6, 'inv', 'max', 0.00302, 0.001), 459-tap remez) yields no beta polynomial and is labelled, not failed",
 ]
@@ -399,7 +399,11 @@ def check_dz(case):
             try:
                 with warnings.catch_warnings():
                     warnings.simplefilter("ignore")
-                    pulse = slr.dzrf(n, tb, p, f, d1, d2)
+                    if p != "ex" and (n + fi + pi) % 3 == 0:
+                        # the flag is documented to act on ptype 'ex' only: the design must not depend on it otherwise
+                        pulse = slr.dzrf(n, tb, p, f, d1, d2, True)
+                    else:
+                        pulse = slr.dzrf(n, tb, p, f, d1, d2)
             except Exception as e:
                 if isinstance(e, ValueError) and "Failure to converge" in str(e) and f in ("pm", "min", "max"):
                     # scipy.signal.remez gave up (long equiripple filters): no beta polynomial exists to quantify over
@@ -433,6 +437,8 @@ def check_dz(case):
 @st.composite
 def st_rand(draw):
     n = draw(st.sampled_from(NPOLY))
+    if draw(st.sampled_from([False] * 9 + [True])):
+        n = draw(st.sampled_from([129, 150, 200, 256]))       # long polynomials (RF length goes up to 256)
     kind = draw(st.sampled_from(["white", "hann", "sinc", "decay"]))
     target = draw(st.one_of(st.sampled_from([900, 999, 995, 990, 997, 980, 950, 985, 500, 50, 200, 700]),
                             st.integers(50, 950), st.integers(950, 999))) / 1000.0
